@@ -16,7 +16,7 @@
 From Coq Require Import List NArith.
 From GV Require Import Base.Ints Gen.Math Gen.StepSM Model.StateMachine Proofs.SMInv Proofs.SMInvStep Proofs.SMRel
   Proofs.SMTheorems Proofs.SMInvActs Proofs.SMWitness Proofs.SMOnce Proofs.SMOnceRel Proofs.SMOnceStep Proofs.SMOnceHist
-  Proofs.SMOnceSign.
+  Proofs.SMOnceSign Proofs.SMOncePH Proofs.SMOnceCons Proofs.SMOnceFin.
 Import ListNotations.
 Local Open Scope N_scope.
 
@@ -139,3 +139,70 @@ Theorem C08_entrance_is_for_the_round_entered : forall sg es e h r pk act,
   (run s = Idle \/ awaiting s \/ run s = NotStarted).
 Proof. exact (fun sg es e h r pk act => ent_facts _ e h r pk act (le7_reachable sg es)). Qed.
 Print Assumptions C08_entrance_is_for_the_round_entered.
+
+(** ** ConsiderProposedBlocks ([OConsider phs new upd maj]): which requests, when - for EVERY state and event.
+    The request is made only while the consensus manager holds no call, and it is one of:
+    - the round begins (round entrance response): upd = [], maj = false;
+    - a view update while AwaitingProposal: either the prevote delay is entered (maj = true; if the machine is
+      idle afterwards its step is at least PrevoteDelay), or the view carries strictly MORE acceptable
+      proposed headers than the machine's current view (maj = false, all acceptable headers of the new view);
+    - block data arrived while the prevote channel is open: new = [], upd <> [], maj = false. *)
+Theorem C08_consider_requests : forall s e x,
+  In x (snd (step s e)) -> is_consider x = true ->
+  cm s = None /\
+  ((awaiting s /\ (exists v, e = EvRERespVRV v) /\ exists phs nw, x = OConsider phs nw [] false) \/
+   (run s = Idle /\ rS (rl s) = StepAwaitingProposal /\ exists v ja, e = EvView v ja /\
+      ((exists phs nw, x = OConsider phs nw [] true /\
+          (run (fst (step s e)) = Idle -> StepPrevoteDelay <= rS (rl (fst (step s e))))) \/
+       (exists old nw, rVRV (rl s) = Some old /\
+          x = OConsider (map ph_hash (reject_mismatched (rl s) (v_phs v))) nw [] false /\
+          (List.length (reject_mismatched (rl s) (v_phs old)) < List.length (reject_mismatched (rl s) (v_phs v)))%nat))) \/
+   (run s = Idle /\ rPvCh (rl s) = true /\ (exists h r d, e = EvBlockData h r d) /\
+      exists phs upd, x = OConsider phs [] upd false /\ upd <> [])).
+Proof. exact consider_step. Qed.
+Print Assumptions C08_consider_requests.
+
+(** the request made when entering the prevote delay (maj = true) is made at most once per round *)
+Theorem C08_consider_majority_at_most_once_per_round : forall sg es a x b y c,
+  List.concat (run_events (sm0 sg) es) = a ++ x :: b ++ y :: c ->
+  is_consider_maj x = true -> is_consider_maj y = true -> exists z, In z b /\ is_ent z = true.
+Proof. exact (fun sg es => consider_maj_once sg es). Qed.
+Print Assumptions C08_consider_majority_at_most_once_per_round.
+
+(** non-vacuity: all kinds of consider requests within one round *)
+Theorem C08Once_example_consider :
+  filter is_consider (List.concat (run_events (sm0 true) ex_cons_hist)) =
+    [ OConsider [[7]] [[7]] [] false; OConsider [[7]; [8]] [[8]] [] false;
+      OConsider [[7]; [8]] [] [[107]] false; OConsider [[7]; [8]] [] [] true ].
+Proof. exact ex_considers. Qed.
+Print Assumptions C08Once_example_consider.
+
+(** ** Finalize requests.
+    Full statement: in one process lifetime at most one [OFinalizeReq] is made per height.
+    It is FALSE of the faithful model (and, to be replayed, of the code), even per (height, round): *)
+
+(** the same (height, round, block) is requested by two consecutive view updates of one lifetime: after a
+    round entrance answered with a committed header, rlc.VRV keeps the view of the round left and
+    handleCommitWaitViewUpdate finds "no header before, one now" at every update (w1 + one view) *)
+Theorem C08_finalize_once_per_round_refuted :
+  existsb (fun e => match e with EvStop => true | _ => false end) w_fin_round = false /\
+  map (filter is_fin) (run_events (sm0 true) w_fin_round) =
+    [[]; []; []; [OFinalizeReq 1 0 [7]]; [OFinalizeReq 1 1 [8]]; [OFinalizeReq 1 1 [8]]] /\
+  run (final_state (sm0 true) w_fin_round) = Idle.
+Proof. exact finalize_once_per_round_refuted. Qed.
+Print Assumptions C08_finalize_once_per_round_refuted.
+
+(** two requests for one height in one lifetime without any committed-header response: a jump-ahead out of
+    commit wait (handleJumpAhead does not look at the step), the new round begins in commit wait again *)
+Theorem C08_finalize_once_per_height_refuted :
+  existsb (fun e => match e with EvStop => true | _ => false end) w_fin_height = false /\
+  existsb is_ch_event w_fin_height = false /\
+  map (filter is_fin) (run_events (sm0 true) w_fin_height) =
+    [[]; []; [OFinalizeReq 1 0 [7]]; []; [OFinalizeReq 1 1 [7]]] /\
+  run (final_state (sm0 true) w_fin_height) = Idle.
+Proof. exact finalize_once_per_height_refuted. Qed.
+Print Assumptions C08_finalize_once_per_height_refuted.
+(* What holds of finalize requests per event is Properties/C08.v C08_finalize_needs_quorum_partial. No
+   "at most once" partial is claimed: excluding the two witness classes needs guards on the event history
+   (no committed-header responses, no view update or jump-ahead during commit wait, views of a round that
+   only grow) under which the statement says little about the code. *)
